@@ -48,6 +48,10 @@ KNOWN = [
 
 # subject prefix (after 'fix: ') -> (properties, rule, what failed)
 FIXED = [
+    ("a syntax error spanning a blank line inside brackets escaped as KeyError", ["C10"], "C10.partial", "`x = (1\\n\\n 2)` raised KeyError from the tokenizer's get_lines while the error text was assembled (F53; reported by an independent agent)"),
+    ("invalid number literals and mixed bytes/str literals escaped as raw Python errors", ["C10"], "C10.partial", "`x = 01` escaped as a raw SyntaxError and `b\"a\" \"b\"` as TypeError: ast.literal_eval of token text was unprotected (F54; reported by an independent agent)"),
+    ("a temporal operator nested inside an ordinary expression crashed the compiler", ["C10"], "C10.partial", "`require x if y else (always z)` failed with AssertionError 'needs visitor in compiler' (F55; reported by an independent agent)"),
+    ("'require (always A) implies B' was rejected although the reference gives it as an example", ["C10"], "C10.partial", "the lookahead after a parenthesised temporal expression lacked `implies` (F56; reported by an independent agent)"),
     ("'beyond X by Y from Z' never used the orientation of Z", ["C07"], "C07.coerce", "`beyond X by Y [from Z]` always specified the global orientation as parentOrientation: Z was coerced to a plain vector before `isA(fromPt, OrientedPoint)`, contradicting the reference (F52; noticed by an independent agent while seeding changes)"),
     ("sub-scenarios of a previous simulation were still consulted at the start of the next one", ["C14"], "C14.runstate", "re-running a scenario whose compose block invokes a sub-scenario later than step 0 gave an extra record entry at step 0: the previous run's stopped sub-scenarios were still in _subScenarios (F51; found by the run-state inventory written for a seeded change)"),
     ("'terminate when' / 'terminate simulation when' / 'record' in the setup of a sub-scenario were treated as requirements", ["C12"], "C12.kinds", "`terminate when X` (or `record`) in the setup block of a dynamically invoked sub-scenario was filed as a temporal requirement and rejected the simulation while X was false (F50; noticed by an independent agent while seeding changes; an upstream test passed only because of the bug)"),
